@@ -87,5 +87,3 @@ func main() {
 		os.Exit(1)
 	}
 }
-
-func runProperty(repo, lib, prop, tier string) int { return 0 }
